@@ -33,9 +33,17 @@ def adr_history(rng, region, uplinks):
         elif k == 5:
             net.downlink(port=9, payload=b"c", confirmed=rng.chance(1, 2), rxc=True)                       # Class C downlink before RX1/RX2
             net.rx2c()
+        elif k == 6:
+            # an ACK owed from a Class C downlink must survive a second accepted downlink (RX1/RX2) before the next uplink
+            net.downlink(port=9, payload=b"c", confirmed=rng.chance(3, 4), rxc=True)
+            net.downlink(port=rng.choice([None, 4]), payload=b"", confirmed=rng.chance(1, 4))
+        elif k == 7:
+            net.rx2c()
+            for _ in range(rng.range(2, 3)):
+                net.downlink(port=rng.choice([None, 9]), payload=b"", confirmed=rng.chance(1, 2), rxc=True)
         else:
             net.rx2c()
-        if i % 8 == 0 or k < 6:
+        if i % 8 == 0 or k < 8:
             net.snap()
     net.snap()
     return net.line()
